@@ -479,6 +479,8 @@ class Balance:
             none_alias = set()
             self.alias = {}
             self.held = set()
+            self.params = set(params)
+            self.rebound = set()
             self.ints = {}
             self.nonnull = set()
             for p in params:
@@ -695,6 +697,8 @@ class Balance:
             if tgt.k != 'var':
                 continue
             v = tgt.a[0]
+            if v in getattr(self, 'params', ()):
+                self.rebound.add(v)
             if st.get(v) == 'owned' and not (val is not None and mentions(val, v)):
                 note('leak', v, path, node, 'owned reference overwritten')
             unchecked.pop(v, None)
@@ -709,6 +713,16 @@ class Balance:
                 if k == 'new':
                     st[v] = 'owned'
                     unchecked[v] = node
+                    # the one co-ownership idiom (DESIGN C11): the __self__ of a
+                    # super object that is itself a parameter (kept alive by the
+                    # caller for the whole call; super.__self__ is read-only), so
+                    # releasing our own reference leaves a valid borrowed one
+                    if val.a[0] == 'PyObject_GetAttr' and len(val.a[1]) == 2 and \
+                            val.a[1][0] is not None and val.a[1][0].k == 'var' and \
+                            val.a[1][0].a[0] in self.params and \
+                            show(val.a[1][1]) == 'str__self__' and \
+                            val.a[1][0].a[0] not in self.rebound:
+                        self.held.add(v)
                 elif k == 'borrowed':
                     st[v] = 'borrowed'
                 else:
